@@ -9,7 +9,7 @@ use alloc::{vec, vec::Vec};
 macro_rules! shl2_shape {
     ($name:ident, $l:expr, $digits:expr, $w:expr) => {
         #[kani::proof]
-        #[kani::unwind(10)]
+        #[kani::unwind(34)]
         #[kani::stub(alloc::vec::Vec::shrink_to_fit, vc::noop_shrink)]
         fn $name() {
             let a0: [u64; $l] = vc::any_canon::<$l>();
@@ -29,7 +29,7 @@ macro_rules! shl2_shape {
 macro_rules! shr2_shape {
     ($name:ident, $l:expr, $digits:expr) => {
         #[kani::proof]
-        #[kani::unwind(10)]
+        #[kani::unwind(34)]
         #[kani::stub(alloc::vec::Vec::shrink_to_fit, vc::noop_shrink)]
         fn $name() {
             let a0: [u64; $l] = vc::any_canon::<$l>();
@@ -48,7 +48,7 @@ macro_rules! shr2_shape {
 macro_rules! shl2_owned_shape {
     ($name:ident, $l:expr, $digits:expr, $s:expr, $w:expr) => {
         #[kani::proof]
-        #[kani::unwind(10)]
+        #[kani::unwind(34)]
         #[kani::stub(alloc::vec::Vec::shrink_to_fit, vc::noop_shrink)]
         fn $name() {
             let a0: [u64; $l] = vc::any_canon::<$l>();
@@ -64,7 +64,7 @@ macro_rules! shl2_owned_shape {
 macro_rules! shr2_owned_shape {
     ($name:ident, $l:expr, $digits:expr, $s:expr) => {
         #[kani::proof]
-        #[kani::unwind(10)]
+        #[kani::unwind(34)]
         #[kani::stub(alloc::vec::Vec::shrink_to_fit, vc::noop_shrink)]
         fn $name() {
             let a0: [u64; $l] = vc::any_canon::<$l>();
@@ -93,7 +93,7 @@ fn rec_shift2(n: Cow<'_, BigUint>, digits: usize, shift: u8) -> BigUint {
 macro_rules! amount_shape {
     ($name:ident, $T:ty, $neg_possible:expr) => {
         #[kani::proof]
-        #[kani::unwind(10)]
+        #[kani::unwind(34)]
         #[kani::stub(biguint_shl2, rec_shift2)]
         #[kani::stub(biguint_shr2, rec_shift2)]
         fn $name() {
@@ -115,7 +115,7 @@ macro_rules! amount_shape {
 macro_rules! amount_neg_mp {
     ($name:ident, $T:ty, $left:expr) => {
         #[kani::proof]
-        #[kani::unwind(10)]
+        #[kani::unwind(34)]
         #[kani::stub(biguint_shl2, rec_shift2)]
         #[kani::stub(biguint_shr2, rec_shift2)]
         fn $name() {
@@ -132,7 +132,7 @@ macro_rules! amount_neg_mp {
 macro_rules! amount_zero_shape {
     ($name:ident, $T:ty) => {
         #[kani::proof]
-        #[kani::unwind(10)]
+        #[kani::unwind(34)]
         fn $name() {
             let k: $T = kani::any();
             kani::assume(k >= 0 as $T);
@@ -145,7 +145,7 @@ macro_rules! amount_zero_shape {
 }
 // >> by an amount whose word part exceeds usize: saturates, result zero
 #[kani::proof]
-#[kani::unwind(10)]
+#[kani::unwind(34)]
 #[kani::stub(biguint_shr2, rec_shift2)]
 fn c07_q_shr_huge_u128() {
     let a0: [u64; 2] = vc::any_canon::<2>();
